@@ -107,6 +107,10 @@ func (cs *ContractSet) parseFile(pkgPath, fileName string, f *ast.File, lineOf f
 	finish := func() { last = nil }
 	for _, cg := range f.Comments {
 		for _, cm := range cg.List {
+			if strings.HasPrefix(cm.Text, "// @") && strings.HasSuffix(fileName, "contracts_verif.go") {
+				// gofmt rewrites "//@" to "// @" in doc comments: the clause would silently disappear
+				return fmt.Errorf("%s:%d: BINDING: contract comment damaged by gofmt (\"// @\" instead of \"//@\"): separate it from the declaration below by a blank line", fileName, lineOf(cm))
+			}
 			if !strings.HasPrefix(cm.Text, "//@") {
 				continue
 			}
